@@ -492,8 +492,32 @@ def _ie_matches(ie, exp, extra_trig=0):
             and ie["end"] == exp["end"] and ie["vol"] == exp["vol"] and ie["dur"] == exp["dur"])
 
 
+def _profile_apply(prof, lid, ops, held):
+    """what the SMF configured, tracked from the requests alone (Create URR, then Update URR, the handlers' order):
+    measurement method bits DURAT=1 VOLUM=2 EVENT=4, measurement information MNOP=0x10"""
+    touched = set()
+    for u in ops.get("cURR", []) or []:
+        if u.get("id") is None:
+            continue
+        m, inf = u.get("method") or 0, u.get("info") or 0
+        prof[(lid, u["id"])] = {"durat": bool(m & 1), "volum": bool(m & 2), "event": bool(m & 4), "mnop": bool(inf & 0x10)}
+        touched.add(u["id"])
+    for u in ops.get("uURR", []) or []:
+        k = (lid, u.get("id"))
+        if u.get("id") is None or (k not in prof) or (u["id"] not in held and u["id"] not in touched):
+            continue
+        if u.get("method") is not None:
+            m = u["method"]
+            prof[k] = dict(prof[k], durat=bool(m & 1), volum=bool(m & 2), event=bool(m & 4))
+        if u.get("info") is not None:
+            prof[k] = dict(prof[k], mnop=bool(u["info"] & 0x10))
+        touched.add(u["id"])
+    return touched
+
+
 def mon_c10(case, obs, prefix):
     bad = []
+    prof = {}      # (UP SEID, URR id) -> measurement profile the SMF configured last (independent of the implementation's)
     for i, ev, o, prev, prev_dp, dup in walk(case, obs, prefix):
         if o.get("fault"):
             bad.append((i, "fault: " + o["fault"]))
@@ -527,15 +551,27 @@ def mon_c10(case, obs, prefix):
                         bad.append((i, "%d usage reports for known URRs, %d Usage Report IEs sent" % (len(known), len(ies))))
                         continue
                     for r, ie in zip(known, ies):
-                        if not _ie_matches(ie, _expect_ie(urrs[r["urr"]], r)):
-                            bad.append((i, "Usage Report IE %s does not carry the measured values %s intact" % (
-                                {k: ie[k] for k in ("urr", "trig", "start", "end", "vol", "dur")}, _expect_ie(urrs[r["urr"]], r))))
+                        u = prof.get((ev["seid"], r["urr"]), urrs[r["urr"]])
+                        if not _ie_matches(ie, _expect_ie(u, r)):
+                            bad.append((i, "Usage Report IE %s does not carry the measured values %s intact (URR profile configured by the SMF: %s)" % (
+                                {k: ie[k] for k in ("urr", "trig", "start", "end", "vol", "dur")}, _expect_ie(u, r),
+                                {k: u[k] for k in ("durat", "volum", "mnop")})))
+        elif ev["t"] == "recv" and not dup and ev["msg"]["k"] == "est":
+            for sl in d["slots"] or []:
+                if sl is not None and live(prev, sl["lid"]) is None:
+                    for k in [k for k in prof if k[0] == sl["lid"]]:
+                        del prof[k]
+                    _profile_apply(prof, sl["lid"], ev["msg"].get("ops") or {}, set())
         elif ev["t"] == "recv" and not dup and ev["msg"]["k"] in ("mod", "del"):
             # every IE in the response stems from a report the data plane returned during this request, values intact
             s = live(prev, ev["msg"]["seid"])
             snow = live(d, ev["msg"]["seid"])
             if s is None:
                 continue
+            lid = ev["msg"]["seid"]
+            touched = set()
+            if ev["msg"]["k"] == "mod":
+                touched = _profile_apply(prof, lid, ev["msg"].get("ops") or {}, set(_sess_urrs(s)))
             scripted = [r for u in ev.get("usage", []) for r in u["rpts"]]
             profiles = dict(_sess_urrs(s))
             profiles.update(_sess_urrs(snow))
@@ -546,18 +582,25 @@ def mon_c10(case, obs, prefix):
                     u = profiles.get(ie["urr"])
                     if u is None:
                         continue
+                    u = prof.get((lid, ie["urr"]), u)
                     cands = [r for r in scripted if r["urr"] == ie["urr"]]
                     if not any(_ie_matches(ie, _expect_ie(u, r), t) for r in cands for t in (0, TERMR, IMMER, TERMR | IMMER)):
-                        # the URR's profile may have been updated in this very request: accept any profile bits
-                        alt = [dict(u, volum=v, durat=dd, mnop=m) for v in (0, 1) for dd in (0, 1) for m in (0, 1)]
+                        # a URR whose profile this very request (re)defines more than once: accept any profile bits
+                        alt = [dict(u, volum=v, durat=dd, mnop=m) for v in (0, 1) for dd in (0, 1) for m in (0, 1)] if ie["urr"] in touched else []
                         if not any(_ie_matches(ie, _expect_ie(a, r), t) for a in alt for r in cands for t in (0, TERMR, IMMER, TERMR | IMMER)):
-                            bad.append((i, "Usage Report IE for URR %d in the response matches no report the data plane returned" % ie["urr"]))
+                            bad.append((i, "Usage Report IE for URR %d in the response matches no report the data plane returned "
+                                           "(values or measurement IEs differ; profile configured by the SMF: %s)" % (
+                                               ie["urr"], {k: u[k] for k in ("durat", "volum", "mnop")})))
+            if ev["msg"]["k"] == "del" and snow is None:
+                for k in [k for k in prof if k[0] == lid]:
+                    del prof[k]
     return bad
 
 
 def mon_c11(case, obs, prefix):
     bad = []
     nxt = {}       # (UP SEID, URR id) -> next UR-SEQN expected, tracked independently of the implementation
+    ended = {}     # (UP SEID, URR id) -> the URR was removed but its bookkeeping entry is still there (no final report came)
     for i, ev, o, prev, prev_dp, dup in walk(case, obs, prefix):
         if o.get("fault"):
             bad.append((i, "fault: " + o["fault"]))
@@ -582,9 +625,14 @@ def mon_c11(case, obs, prefix):
             for x in carriers:
                 for ie in x["urs"] or []:
                     k = (lid, ie["urr"])
-                    if ie["urr"] in created and ie["urr"] not in before:
-                        nxt.setdefault(k, 0)
+                    if ie["urr"] in created and (ie["urr"] not in before or before[ie["urr"]].get("removed")):
+                        nxt[k] = 0
+                        created.discard(ie["urr"])
                     want = nxt.get(k, 0)
+                    if ended.get(k) and ie["urr"] not in created:
+                        # report for a URR whose removal produced no final report (its entry lingers, marked removed): the
+                        # property does not say whether such a stale report continues or restarts - accept both
+                        want = ie["seqn"] if ie["seqn"] in (want, 0) else want
                     if ie["seqn"] != want:
                         bad.append((i, "UR-SEQN %d for URR %d of session %d, expected %d" % (ie["seqn"], ie["urr"], lid, want)))
                     nxt[k] = (ie["seqn"] + 1) % (1 << 32)
@@ -593,32 +641,41 @@ def mon_c11(case, obs, prefix):
             s = live(d, l)
             if s is None or u not in _sess_urrs(s) or (live(prev, l) is not None and live(prev, l)["rid"] != s["rid"]):
                 del nxt[(l, u)]
+                ended.pop((l, u), None)
+            elif _sess_urrs(s)[u].get("removed"):
+                ended[(l, u)] = True        # removed, entry lingers: a Create URR for this id starts a new life at 0
+            elif ended.get((l, u)):
+                nxt[(l, u)] = 0             # re-created (entry live again) without having reported in that response
+                ended.pop((l, u))
     return bad
 
 
-def sig_c11(case, failures):
-    """create-urr-existing-id: a Create URR names a URR id that the session already holds (not removed)"""
-    if not any("UR-SEQN" in m for _, m in failures):
+def sig_c11(case, failures, trace=None, prefix=""):
+    """create-urr-existing-id: the FIRST failure concerns a (session, URR) for which an earlier Create URR IE named the id
+    while the session still held it, not removed (judged on the implementation's own state dumps), or twice in one request"""
+    import re as _re
+    m0 = _re.match(r"UR-SEQN \d+ for URR (\d+) of session (\d+)", failures[0][1]) if failures else None
+    if not m0 or trace is None:
         return None
-    have = {}
-    nsess = 0
-    for ev in case["events"]:
-        if ev["t"] != "recv":
+    urr, lid, upto = int(m0.group(1)), int(m0.group(2)), failures[0][0]
+    for i, ev, o, prev, prev_dp, dup in walk(case, trace, prefix):
+        if i > upto:
+            break
+        if ev["t"] != "recv" or dup or ev["msg"]["k"] not in ("est", "mod"):
             continue
-        m = ev["msg"]
-        ops = m.get("ops") or {}
-        if m["k"] == "est":
-            nsess += 1
-            ids = [u.get("id") for u in ops.get("cURR", [])]
-            if len(ids) != len(set(ids)):
+        ids = [u.get("id") for u in (ev["msg"].get("ops") or {}).get("cURR", [])]
+        if urr not in ids:
+            continue
+        if ev["msg"]["k"] == "est":
+            # the session this request created is the one with UP SEID lid?
+            if ids.count(urr) > 1 and live(o["dump"], lid) is not None and live(prev, lid) is None:
                 return "create-urr-existing-id"
-            have[nsess] = set(ids)
-        if m["k"] == "mod":
-            cur = have.setdefault(m["seid"], set())
-            for u in ops.get("cURR", []):
-                if u.get("id") in cur:
-                    return "create-urr-existing-id"
-                cur.add(u.get("id"))
+            continue
+        if ev["msg"]["seid"] != lid:
+            continue
+        held = _sess_urrs(live(prev, lid)).get(urr)
+        if ids.count(urr) > 1 or (held is not None and not held.get("removed")):
+            return "create-urr-existing-id"
     return None
 
 
@@ -723,31 +780,24 @@ def mon_c12(case, obs, prefix):
     return bad
 
 
-def sig_c12(case, failures):
-    """create-pdr-existing-id: a Create PDR names a PDR id the session already holds"""
-    if not any("referring PDRs" in m or "final usage" in m for _, m in failures):
+def sig_c12(case, failures, trace=None, prefix=""):
+    """create-pdr-existing-id: before the first failure, a Create PDR IE named a PDR id which the addressed session held
+    at that moment (judged on the implementation's own state dumps), or one request named an id twice"""
+    if not failures or trace is None or not any("referring PDRs" in m or "final usage" in m for _, m in failures):
         return None
-    have = {}
-    nsess = 0
-    for ev in case["events"]:
-        if ev["t"] != "recv":
+    upto = failures[0][0]
+    for i, ev, o, prev, prev_dp, dup in walk(case, trace, prefix):
+        if i > upto:
+            break
+        if ev["t"] != "recv" or dup or ev["msg"]["k"] not in ("est", "mod"):
             continue
-        m = ev["msg"]
-        ops = m.get("ops") or {}
-        ids = [(p.get("id") if p.get("id") is not None else 0) for p in ops.get("cPDR", [])]
-        if m["k"] == "est":
-            nsess += 1
-            if len(ids) != len(set(ids)):
+        ids = [(p.get("id") if p.get("id") is not None else 0) for p in (ev["msg"].get("ops") or {}).get("cPDR", [])]
+        if len(ids) != len(set(ids)):
+            return "create-pdr-existing-id"
+        if ev["msg"]["k"] == "mod":
+            held = _pdr_map(live(prev, ev["msg"]["seid"])) if live(prev, ev["msg"]["seid"]) is not None else {}
+            if any(p in held for p in ids):
                 return "create-pdr-existing-id"
-            have[nsess] = set(ids)
-        if m["k"] == "mod":
-            cur = have.setdefault(m["seid"], set())
-            for p in ids:
-                if p in cur:
-                    return "create-pdr-existing-id"
-                cur.add(p)
-            for p in ops.get("rPDR", []):
-                cur.discard(p)
     return None
 
 
@@ -897,6 +947,13 @@ def corpus_cases(prop):
     return out
 
 
+def _call_sig(fn, case, failures, trace, prefix):
+    import inspect
+    if "trace" in inspect.signature(fn).parameters:
+        return fn(case, failures, trace=trace, prefix=prefix)
+    return fn(case, failures)
+
+
 def run_property(ctx, prop, monitor, gen_kwargs, n_quick, n_thorough, replay=None, finding_sig=None,
                  assumptions=None, directed=None, rule="", extra_phase=None):
     info = common.prepare(ctx)
@@ -921,9 +978,12 @@ def run_property(ctx, prop, monitor, gen_kwargs, n_quick, n_thorough, replay=Non
     if replay:
         cases = [json.load(open(replay))["case"]]
     else:
-        g = pfcp.Gen(rnd, **gen_kwargs)
+        gk = dict(gen_kwargs)
+        usage_share = gk.pop("usage_share", 0.0)     # share of usage-dense histories (Gen.usage_history)
+        g = pfcp.Gen(rnd, **gk)
         n = n_quick if ctx.tier == "quick" else n_thorough
-        cases = corpus_cases(prop) + pfcp.directed(rnd) + (directed(rnd) if directed else []) + [g.history() for _ in range(n)]
+        cases = corpus_cases(prop) + pfcp.directed(rnd) + (directed(rnd) if directed else [])
+        cases += [g.usage_history() if rnd.random() < usage_share else g.history() for _ in range(n)]
     r = pfcp.run_cases(ctx, info["harness"], cases)
     if "error" in r and "impl" not in r:
         ctx.violation({"property": prop, "broken": r["error"]}, no_input=True)
@@ -950,7 +1010,7 @@ def run_property(ctx, prop, monitor, gen_kwargs, n_quick, n_thorough, replay=Non
         res, _ = common.run_harness(ctx, info["harness"], "pfcp", [small], timeout=120, tag="-final")
         f2 = monitor(small, res["cases"][0], res["prefix"]) if res else f
         msg = (f2 or f)[0][1]
-        sig = finding_sig(small, f2 or f) if finding_sig else None
+        sig = _call_sig(finding_sig, small, f2 or f, res["cases"][0] if res else None, res["prefix"] if res else prefix) if finding_sig else None
         known = [k for k in common.known_findings(prop) if k["sig"] == sig] if sig else []
         if known:
             ctx.known("sig=%s %s" % (sig, known[0]["what"]))
